@@ -36,7 +36,9 @@ theorem inv_stepThread {w : MWorld} {tid : Nat} (hI : MInv w) (hna : ¬ AbandonI
   | tsMark r o bytes => exact inv_tsMark hI ht
   | rxState i p idx => exact inv_rxState hI ht
   | rxMarker i p idx => exact inv_rxMarker hI ht
-  | rxClaim k p => exact inv_rxClaim hI ht
+  | rxClaim k p idx => exact inv_rxClaim hI ht
+  | rxVerify k p idx => exact inv_rxVerify hI ht
+  | rxUnclaim k => exact inv_rxUnclaim hI ht
   | rxCopy k p => exact inv_rxCopy hI ht
   | rxMark k => exact inv_rxMark hI ht
   | rxWake k => exact inv_rxWake hI ht
